@@ -7,3 +7,5 @@ const verifOn = false
 func verifPool(kind string, obj any, acquire bool) bool { return false }
 
 func verifPoint(site string) {}
+
+func verifGauges(sc *serverConn, strms Streams, open, closed int) {}
